@@ -268,6 +268,26 @@ pub fn stream_e2e(a: &Args) {
             sess = Some(Session::start(&root, &cfg));
         }
         let se = sess.as_mut().unwrap();
+        // Barrier: nothing of an earlier case may still be in a memtable or passive buffer — an
+        // aggregate does not check the event type of memory rows (finding agg-ignores-for-since-type),
+        // which also makes `QUERY <sentinel type> COUNT` a probe for "memory is empty".
+        let sentinel = format!("zs{}", a.seed);
+        if i % per_session == 0 || a.only.is_some() {
+            se.cmd(&format!("DEFINE {sentinel} FIELDS {{ k: \"int\" }}"));
+        }
+        let mut clean = false;
+        for _ in 0..50 {
+            se.cmd("FLUSH");
+            se.ctl(serde_json::json!({"ctl": "await_flush"}));
+            if se.cmd(&format!("QUERY {sentinel} COUNT")).is_some_and(|x| x.ok() && x.rows.is_empty()) {
+                clean = true;
+                break;
+            }
+            std::thread::sleep(std::time::Duration::from_millis(20));
+        }
+        if !clean {
+            s.tally("memory-not-clean-at-start");
+        }
         let ty = format!("e{}x{}", a.seed, i);
         let oty = format!("o{}x{}", a.seed, i);
         let with_other = r.chance(1, 4);
@@ -375,7 +395,13 @@ pub fn stream_e2e(a: &Args) {
             s.tally(if q.ctx.is_some() { "FOR" } else { "no-FOR" });
             s.tally(if q.limit.is_some() { "LIMIT" } else { "no-LIMIT" });
             // exact tie with the model where the rows fed to the aggregators are exactly the type's rows
-            if q.ctx.is_none() && q.limit.is_none() && !with_other {
+            if clean && q.ctx.is_none() && q.limit.is_none() && !with_other && {
+                let mut a1 = sel.clone();
+                let mut b1: Vec<Vec<Sc>> = evs.iter().filter(|e| e.ty == 0 && passes(e)).map(|e| vec![Sc::Str(e.g.clone()), Sc::Int(e.x), Sc::Int(e.t), Sc::Int(e.k)]).collect();
+                a1.sort_by_key(|r| r[3].token());
+                b1.sort_by_key(|r| r[3].token());
+                a1 == b1
+            } {
                 let flows: Flows = vec![vec![sel.clone()]];
                 s.case(&format!("flow {}{}", q.plan().header(), body_tokens(&flows)), &table_line(&got), !got.is_empty());
             }
@@ -387,7 +413,10 @@ pub fn stream_e2e(a: &Args) {
             if ok {
                 s.oracle_ok();
             } else {
-                let class = if selection_short && q.limit.is_none() && got == reference(&q, &log_sel) {
+                let class = if !clean && q.limit.is_none() && q.ctx.is_none() {
+                    // rows of an earlier history were still in memory
+                    "agg-ignores-for-since-type"
+                } else if selection_short && q.limit.is_none() && got == reference(&q, &log_sel) {
                     // the aggregate is right about the stored rows; the *selection* lost some
                     "selection-misses-rows"
                 } else if uniq_int {
